@@ -205,12 +205,13 @@ CHECKS["C11"] = dict(level="exploration", ref="DESIGN.md §4 C11, §9",
          "(text used as a format string). TLC writes the universe out; the harness builds every case as a real Go value (the 26 registered types of the specification "
          "are derived by reflection from the harness's Go types), runs the real edf.Encode / edf.Decode under cache configurations built the way net/handshake builds "
          "them, and spec/EDF_Trace.tla judges every observation: what the encoder accepts decodes to an equal value of the same type leaving no byte, also with "
-         "foreign bytes behind it and with warm caches, and a value without an encoding is refused. Seeded random cases nested to depth 4 are added (and checked "
+         "foreign bytes behind it and with warm caches, and a value without an encoding is refused. Every case also travels from one real node to a process of another "
+         "one (caches negotiated by the real handshake), inside an envelope and as the message itself, and what the process received is judged the same way. Seeded random cases nested to depth 4 are added (and checked "
          "on the model too). The byte length of every real encoding is compared with the model's (reported as drift, not judged).",
     note="Trusted: TLC. The value space is not enumerable: coverage is the grammar (boundary lengths 0/1/255/256, 65533..65536, 32767/32768, buffer growth points, extreme "
          "numbers, NaN, signed zero, nil vs empty at every level, every registered shape, cached and uncached atoms / types / errors). Content of long strings is a fixed "
-         "pattern per fill class. Equality is lenient where Go's is not defined (NaN, time zones by offset, errors by text or identity). The caches are built in one process; "
-         "their negotiation over a connection is exercised by C12-C15.",
+         "pattern per fill class. Equality is lenient where Go's is not defined (NaN, time zones by offset, errors by text or identity). The wire stage uses one connection with a pool of one link and no compression "
+         "(segmentation, pools and compression are C12 / C13).",
     tech="TLA+ model codec EDF model-checked by TLC over a bounded universe; the TLC-enumerated universe replayed into the real encoder / decoder, observations validated by TLC against spec/EDF_Trace.tla")
 
 NOT_YET = {
